@@ -1,7 +1,12 @@
-// c02consts prints the package-level constants of core/load/adaptiveshedder.go as
-// exact rationals ("name num den" per line), evaluated by go/types + go/constant.
-// Only package time is really imported; every other import is an empty stand-in
-// (type errors outside the constant declarations are ignored).
+// c02consts prints the package-level numeric constants of a Go package directory (all non-test
+// files: the constants may live in any file of the package) as exact rationals, evaluated by
+// go/types + go/constant:
+//
+//	const <name> <num> <den> <file>
+//	var   <name> <num> <den> <file>     (a package-level variable initialised with a constant expression)
+//
+// Only package time is really imported; every other import is an empty stand-in (type errors
+// outside the constant declarations are ignored).
 package main
 
 import (
@@ -14,7 +19,9 @@ import (
 	"go/types"
 	"os"
 	"path"
+	"path/filepath"
 	"sort"
+	"strings"
 )
 
 type imp struct {
@@ -22,7 +29,7 @@ type imp struct {
 }
 
 func (i imp) Import(p string) (*types.Package, error) {
-	if p == "time" {
+	if p == "time" || p == "math" {
 		return i.std.Import(p)
 	}
 	pkg := types.NewPackage(p, path.Base(p))
@@ -30,14 +37,39 @@ func (i imp) Import(p string) (*types.Package, error) {
 	return pkg, nil
 }
 
+func rat(v constant.Value) (string, string, bool) {
+	if v == nil || (v.Kind() != constant.Int && v.Kind() != constant.Float) {
+		return "", "", false
+	}
+	num, den := constant.Num(v), constant.Denom(v)
+	if num.Kind() != constant.Int || den.Kind() != constant.Int {
+		return "", "", false
+	}
+	return num.ExactString(), den.ExactString(), true
+}
+
 func main() {
 	if len(os.Args) < 2 {
-		fmt.Fprintln(os.Stderr, "usage: c02consts file.go...")
+		fmt.Fprintln(os.Stderr, "usage: c02consts <package dir | file.go...>")
 		os.Exit(2)
+	}
+	var names []string
+	for _, a := range os.Args[1:] {
+		if st, err := os.Stat(a); err == nil && st.IsDir() {
+			ms, _ := filepath.Glob(filepath.Join(a, "*.go"))
+			sort.Strings(ms)
+			for _, m := range ms {
+				if !strings.HasSuffix(m, "_test.go") {
+					names = append(names, m)
+				}
+			}
+		} else {
+			names = append(names, a)
+		}
 	}
 	fset := token.NewFileSet()
 	var files []*ast.File
-	for _, fn := range os.Args[1:] {
+	for _, fn := range names {
 		f, err := parser.ParseFile(fset, fn, nil, 0)
 		if err != nil {
 			fmt.Fprintln(os.Stderr, err)
@@ -45,30 +77,41 @@ func main() {
 		}
 		files = append(files, f)
 	}
+	info := &types.Info{Types: map[ast.Expr]types.TypeAndValue{}, Defs: map[*ast.Ident]types.Object{}}
 	conf := types.Config{
 		Importer: imp{std: importer.ForCompiler(fset, "source", nil)},
 		Error:    func(error) {},
 	}
-	pkg, _ := conf.Check("load", fset, files, nil)
+	pkg, _ := conf.Check("load", fset, files, info)
 	if pkg == nil {
 		fmt.Fprintln(os.Stderr, "type check produced no package")
 		os.Exit(1)
 	}
-	names := pkg.Scope().Names()
-	sort.Strings(names)
-	for _, n := range names {
-		c, ok := pkg.Scope().Lookup(n).(*types.Const)
-		if !ok {
-			continue
+	for _, f := range files {
+		base := filepath.Base(fset.Position(f.Pos()).Filename)
+		for _, d := range f.Decls {
+			gd, ok := d.(*ast.GenDecl)
+			if !ok || (gd.Tok != token.CONST && gd.Tok != token.VAR) {
+				continue
+			}
+			for _, sp := range gd.Specs {
+				vs := sp.(*ast.ValueSpec)
+				for i, id := range vs.Names {
+					if gd.Tok == token.CONST {
+						if c, ok := info.Defs[id].(*types.Const); ok {
+							if n, dn, ok := rat(c.Val()); ok {
+								fmt.Printf("const %s %s %s %s\n", id.Name, n, dn, base)
+							}
+						}
+					} else if len(vs.Values) == len(vs.Names) {
+						if tv, ok := info.Types[vs.Values[i]]; ok {
+							if n, dn, ok := rat(tv.Value); ok {
+								fmt.Printf("var %s %s %s %s\n", id.Name, n, dn, base)
+							}
+						}
+					}
+				}
+			}
 		}
-		v := c.Val()
-		if v.Kind() != constant.Int && v.Kind() != constant.Float {
-			continue
-		}
-		num, den := constant.Num(v), constant.Denom(v)
-		if num.Kind() != constant.Int || den.Kind() != constant.Int {
-			continue
-		}
-		fmt.Printf("%s %s %s\n", n, num.ExactString(), den.ExactString())
 	}
 }
